@@ -335,8 +335,16 @@ pub fn gen_case(prop: &str, rng: &mut Rng) -> Case {
     let w_lim = p.w_lim;
     let w_dropc = sw(rng, p.w_drop_consumer);
     // poll policy of the run: how eagerly woken consumers are polled after a producer step
-    let eager = *rng.pick(&[0usize, 0, 1, 2, 3, 4]);
-    let w_poll_any = *rng.pick(&[0u32, 3, 8]);
+    let mut eager = *rng.pick(&[0usize, 0, 1, 2, 3, 4]);
+    let mut w_poll_any = *rng.pick(&[0u32, 3, 8]);
+    // outsized runs: half of them keep a transaction open for dozens of operations (a batch of more
+    // than 16 / 32 / 64 diffs), half of them hardly poll at all before the end (dozens of messages
+    // waiting for one poll)
+    let long_tx = outsized && rng.chance(1, 2);
+    if outsized && rng.chance(1, 2) {
+        eager = 0;
+        w_poll_any = *rng.pick(&[0u32, 0, 1]);
+    }
     let w_settle = *rng.pick(&[0u32, 2, 6]);
     let grow_bias = rng.chance(1, 2);
 
@@ -358,7 +366,7 @@ pub fn gen_case(prop: &str, rng: &mut Rng) -> Case {
         let cats = [
             writer_total,                                                     // 0 direct/tx op
             if in_tx { 0 } else { w_tx },                                     // 1 tx begin
-            if in_tx { 12 } else { 0 },                                       // 2 tx end/rollback
+            if !in_tx { 0 } else if long_tx { 1 } else { 12 },                // 2 tx end/rollback
             w_trav,                                                           // 3 traversal
             w_bad,                                                            // 4 bad op
             if in_tx || sh.consumers >= p.max_consumers { 0 } else { p.w_sub }, // 5 subscribe
